@@ -86,6 +86,24 @@ static ZSTD_DCtx* get_dctx(void) {
 }
 #endif /* _OPENMP */
 
+#ifdef CARQUET_VERIF
+/* Verification hook (off by default): drop the calling thread's cached
+ * decompression context so that every simulated run starts cold. */
+void carquet_verif_zstd_thread_reset(void) {
+#if defined(_OPENMP) && !defined(CARQUET_USE_PTHREAD_TLS)
+    if (tls_dctx) {
+        ZSTD_freeDCtx(tls_dctx);
+        tls_dctx = NULL;
+    }
+#elif !defined(_OPENMP)
+    if (global_dctx) {
+        ZSTD_freeDCtx(global_dctx);
+        global_dctx = NULL;
+    }
+#endif
+}
+#endif /* CARQUET_VERIF */
+
 int carquet_zstd_decompress(
     const uint8_t* src,
     size_t src_size,
